@@ -1,7 +1,9 @@
 (* C13 - The continuum behaves as sorted unit sets per annotator under any history.
-   Property theorems only; proofs in theories/Cont/Proofs.v. *)
-From Coq Require Import List Arith ZArith Bool Sorted.
+   Property theorems only; proofs in theories/Cont/Proofs.v - except the C13_src_* theorems at the end, re-proved on every run against
+   genprops/ContGen.v, the translation of Unit.__lt__ and Continuum.__eq__ / __ne__ / __bool__ from the CURRENT continuum.py (harness/gen_cont.py). *)
+From Coq Require Import String List Arith ZArith Bool Sorted Lia.
 From PGA Require Import Cont.Model Cont.Proofs.
+From PGAprops Require Import ContGen.
 Import ListNotations.
 Local Open Scope Z_scope.
 
@@ -73,3 +75,40 @@ Example C13_example :
               [OAdd 0 5 u1; OAdd 0 5 u2; OAdd 0 5 (mkU 3 3 None); OAdd 1 2 u2; OMergeInPlace 0 1; ORemove 0 2 u2; OResetBounds 0] in
   anns (rget rs 0) = [(2, []); (5, [u1; u2])] /\ cats (rget rs 0) = [1] /\ binf (rget rs 0) = 0 /\ bsup (rget rs 0) = 100.
 Proof. vm_compute. repeat split. Qed.
+
+(* ---------------------------------------------------------------------------------------------------------------------------------
+   Tie to the source: Unit.__lt__ as written IS the model's order (so the order theorems above are about the code's comparison), the class
+   still derives ==, hash and the other comparisons from the two fields; Continuum.__eq__ / __bool__ as written ARE the model's. *)
+Theorem C13_src_unit_lt u v : unit_lt_src u v = unit_ltb u v.
+Proof.
+  unfold unit_lt_src, unit_ltb, seg_eqb, seg_ltb, lab_ltb.
+  destruct ((us u =? us v) && (ue u =? ue v)); [|reflexivity].
+  destruct (ul u), (ul v); reflexivity.
+Qed.
+Theorem C13_src_unit_class :
+  unit_class_src = ["total_ordering"; "dataclass(frozen=True, eq=True)"; "segment: Segment"; "annotation: Optional[str] = None"]%string.
+Proof. reflexivity. Qed.
+
+Lemma list_eqb_true a b : list_eqb a b = true <-> a = b.
+Proof.
+  revert b. induction a as [|x a IH]; intros [|y b]; cbn [list_eqb]; split; intros H; try reflexivity; try discriminate.
+  - apply andb_true_iff in H. destruct H as [H1 H2]. apply Z.eqb_eq in H1. apply IH in H2. congruence.
+  - injection H as -> ->. rewrite Z.eqb_refl. apply IH. reflexivity.
+Qed.
+Lemma forallb_ext' {A} (f g : A -> bool) l : (forall x, f x = g x) -> forallb f l = forallb g l.
+Proof. intros H. induction l as [|x l IH]; [reflexivity|]. cbn. rewrite H, IH. reflexivity. Qed.
+Theorem C13_src_continuum_eq c d : continuum_eq_src c d = cont_eqb c d.
+Proof.
+  unfold continuum_eq_src, cont_eqb.
+  destruct (list_eq_dec Z.eq_dec (map fst (anns c)) (map fst (anns d))) as [E|E].
+  - rewrite (proj2 (list_eqb_true _ _) E). cbn [negb].
+    destruct (length (all_pairs c) =? length (all_pairs d))%nat; cbn [negb andb]; [|reflexivity].
+    apply forallb_ext'. intros p. rewrite negb_orb, !negb_involutive. reflexivity.
+  - destruct (list_eqb (map fst (anns c)) (map fst (anns d))) eqn:F; [|reflexivity].
+    apply list_eqb_true in F. contradiction.
+Qed.
+Theorem C13_src_continuum_bool c : continuum_bool_src c = cont_bool c.
+Proof.
+  unfold continuum_bool_src, cont_bool. induction (anns c) as [|[a l] r IH]; [reflexivity|].
+  cbn [forallb existsb snd]. destruct l; cbn; [exact IH|reflexivity].
+Qed.
